@@ -230,6 +230,8 @@ aggg!(c13_3_fold_adjacent, 3, [A, Anon, A], [0, 0, 0]);
 aggg!(c13_3_fold_hole_before_page, 3, [A, Anon, A], [0, 1, 0]);
 aggg!(c13_3_fold_hole_after_page, 3, [A, Anon, A], [0, 0, 1]);
 agg!(c13_1_file, 1, [A], false);
+agg!(c13_1_vdso_gate, 1, [Vdso], true);
+agg!(c13_1_anon_gate, 1, [Anon], true);
 agg!(c13_1_heap, 1, [Heap], false);
 agg!(c13_1_deleted, 1, [ADeleted], false);
 agg!(c13_2_same, 2, [A, A], false);
